@@ -309,4 +309,349 @@ example : keyed ⟨.position, .key⟩
     (.seq none [.map none [(.str ['a'], .scalar none (.int 1))], .map none [(.str ['a'], .scalar none (.int 2))]]) = true := by
   decide +kernel
 
+/-! ## truthfulness under positional comparison -/
+
+/-- positional comparison: array mode `position` and AoH mode `position` (the defaults) or `dpos` -/
+def Positional (c : Cfg) : Prop := c.arr = .position ∧ (c.aoh = .position ∨ c.aoh = .dpos)
+
+instance (c : Cfg) : Decidable (Positional c) := by unfold Positional; exact inferInstance
+
+/-- An entry emitted while comparing `l` with `r` at path `p` is true of them: its path is `p ++ q`,
+a SAME/CHANGE/DELETE entry carries what `l` holds at `q`, a SAME/CHANGE/ADD entry what `r` holds
+at `q`, SAME values are equal and CHANGE values differ (Python `==`), the absent side is `None`. -/
+inductive EntryOk (p : Addr) (l r : Node) : Entry → Prop
+  | same (q : Addr) (a b : Node) : l.get? q = some a → r.get? q = some b → eqv a b = true →
+      EntryOk p l r ⟨.same, p ++ q, some a, some b⟩
+  | change (q : Addr) (a b : Node) : l.get? q = some a → r.get? q = some b → eqv a b = false →
+      EntryOk p l r ⟨.change, p ++ q, some a, some b⟩
+  | delete (q : Addr) (a : Node) : l.get? q = some a → EntryOk p l r ⟨.delete, p ++ q, some a, none⟩
+  | add (q : Addr) (b : Node) : r.get? q = some b → EntryOk p l r ⟨.add, p ++ q, none, some b⟩
+
+theorem get?_cons {n c : Node} {ref : Ref} {q : Addr} (h : n.child? ref = some c) :
+    n.get? (ref :: q) = c.get? q := by
+  simp [Node.get?, h]
+
+theorem EntryOk.lift {p : Addr} {l r lc rc : Node} {ref : Ref} {e : Entry}
+    (hl : l.child? ref = some lc) (hr : r.child? ref = some rc) (h : EntryOk (p ++ [ref]) lc rc e) :
+    EntryOk p l r e := by
+  cases h with
+  | same q a b h1 h2 h3 =>
+    have := EntryOk.same (p := p) (l := l) (r := r) (ref :: q) a b (by rw [get?_cons hl]; exact h1) (by rw [get?_cons hr]; exact h2) h3
+    simpa using this
+  | change q a b h1 h2 h3 =>
+    have := EntryOk.change (p := p) (l := l) (r := r) (ref :: q) a b (by rw [get?_cons hl]; exact h1) (by rw [get?_cons hr]; exact h2) h3
+    simpa using this
+  | delete q a h1 =>
+    have := EntryOk.delete (p := p) (l := l) (r := r) (ref :: q) a (by rw [get?_cons hl]; exact h1)
+    simpa using this
+  | add q b h2 =>
+    have := EntryOk.add (p := p) (l := l) (r := r) (ref :: q) b (by rw [get?_cons hr]; exact h2)
+    simpa using this
+
+theorem EntryOk.del_child {p : Addr} {l r lc : Node} {ref : Ref} (hl : l.child? ref = some lc) :
+    EntryOk p l r (mkDel (p ++ [ref]) lc) :=
+  EntryOk.delete [ref] lc (by rw [get?_cons hl]; rfl)
+
+theorem EntryOk.add_child {p : Addr} {l r rc : Node} {ref : Ref} (hr : r.child? ref = some rc) :
+    EntryOk p l r (mkAdd (p ++ [ref]) rc) :=
+  EntryOk.add [ref] rc (by rw [get?_cons hr]; rfl)
+
+theorem EntryOk.del_self {p : Addr} {l r : Node} : EntryOk p l r (mkDel p l) := by
+  unfold mkDel
+  simpa using EntryOk.delete (p := p) (l := l) (r := r) [] l rfl
+
+theorem EntryOk.add_self {p : Addr} {l r : Node} : EntryOk p l r (mkAdd p r) := by
+  unfold mkAdd
+  simpa using EntryOk.add (p := p) (l := l) (r := r) [] r rfl
+
+theorem EntryOk.scalar_self {p : Addr} {l r : Node} : EntryOk p l r (scalarEntry p l r) := by
+  unfold scalarEntry
+  cases h : eqv l r with
+  | true => simpa using EntryOk.same (p := p) (l := l) (r := r) [] l r rfl rfl h
+  | false => simpa using EntryOk.change (p := p) (l := l) (r := r) [] l r rfl rfl h
+
+theorem getElem?_pre (pre : List Node) (x : Node) (xs : List Node) : (pre ++ x :: xs)[pre.length]? = some x := by
+  simp
+
+theorem child_member {a : Option Str} {ms : List Key} {k : Key} (h : k ∈ ms) :
+    (Node.set a ms).child? (.member k) = some (keyNode k) := by
+  cases k <;> simp [Node.child?, h, keyNode, Key.toScalar]
+
+theorem delSeq_ok (p : Addr) (a : Option Str) (r : Node) : ∀ (xs pre : List Node),
+    ∀ e ∈ delSeq p pre.length xs, EntryOk p (.seq a (pre ++ xs)) r e := by
+  intro xs
+  induction xs with
+  | nil => intro pre e h; simp [delSeq] at h
+  | cons x xs ih =>
+    intro pre e h
+    simp only [delSeq, List.mem_cons] at h
+    cases h with
+    | inl h => rw [h]; exact EntryOk.del_child (by simp [Node.child?])
+    | inr h =>
+      have := ih (pre ++ [x]) e (by simpa using h)
+      simpa using this
+
+theorem addSeq_ok (p : Addr) (b : Option Str) (l : Node) : ∀ (ys pre : List Node),
+    ∀ e ∈ addSeq p pre.length ys, EntryOk p l (.seq b (pre ++ ys)) e := by
+  intro ys
+  induction ys with
+  | nil => intro pre e h; simp [addSeq] at h
+  | cons y ys ih =>
+    intro pre e h
+    simp only [addSeq, List.mem_cons] at h
+    cases h with
+    | inl h => rw [h]; exact EntryOk.add_child (by simp [Node.child?])
+    | inr h =>
+      have := ih (pre ++ [y]) e (by simpa using h)
+      simpa using this
+
+theorem purge_ok (s : Bool) (p : Addr) (l r : Node) (hw : wf l = true) : ∀ e ∈ purge s p l, EntryOk p l r e := by
+  intro e he
+  unfold purge at he
+  split at he
+  · simp only [List.mem_singleton] at he; rw [he]; exact EntryOk.del_self
+  · cases l with
+    | scalar a v =>
+      cases v <;> simp only [purgeCore, List.mem_singleton, List.not_mem_nil] at he <;> (rw [he]; exact EntryOk.del_self)
+    | seq a xs => exact delSeq_ok p a r xs [] e (by simpa [purgeCore] using he)
+    | map a es =>
+      simp only [purgeCore, List.mem_map] at he
+      obtain ⟨kv, hkv, rfl⟩ := he
+      exact EntryOk.del_child (by simpa [Node.child?] using lookup_of_mem (wf_map hw).1 kv hkv)
+    | set a ms =>
+      simp only [purgeCore, List.mem_map] at he
+      obtain ⟨k, hk, rfl⟩ := he
+      exact EntryOk.del_child (child_member hk)
+
+theorem addAll_ok (s : Bool) (p : Addr) (l r : Node) (hw : wf r = true) : ∀ e ∈ addAll s p r, EntryOk p l r e := by
+  intro e he
+  unfold addAll at he
+  split at he
+  · simp only [List.mem_singleton] at he; rw [he]; exact EntryOk.add_self
+  · cases r with
+    | scalar a v =>
+      cases v <;> simp only [addAllCore, List.mem_singleton, List.not_mem_nil] at he <;> (rw [he]; exact EntryOk.add_self)
+    | seq a xs => exact addSeq_ok p a l xs [] e (by simpa [addAllCore] using he)
+    | map a es =>
+      simp only [addAllCore, List.mem_map] at he
+      obtain ⟨kv, hkv, rfl⟩ := he
+      exact EntryOk.add_child (by simpa [Node.child?] using lookup_of_mem (wf_map hw).1 kv hkv)
+    | set a ms =>
+      simp only [addAllCore, List.mem_map] at he
+      obtain ⟨k, hk, rfl⟩ := he
+      exact EntryOk.add_child (child_member hk)
+
+theorem clash_ok (s : Bool) (p : Addr) (l r : Node) (hl : wf l = true) (hr : wf r = true) :
+    ∀ e ∈ purge s p l ++ addAll s p r, EntryOk p l r e := by
+  intro e he
+  rw [List.mem_append] at he
+  cases he with
+  | inl h => exact purge_ok s p l r hl e h
+  | inr h => exact addAll_ok s p l r hr e h
+
+theorem posShallow_nil_left (p : Addr) : ∀ (ys : List Node) (i : Nat), posShallow p i [] ys = addSeq p i ys := by
+  intro ys
+  induction ys with
+  | nil => intro i; simp [posShallow, addSeq]
+  | cons y ys ih => intro i; simp [posShallow, addSeq, ih]
+
+theorem posShallow_nil_right (p : Addr) : ∀ (xs : List Node) (i : Nat), posShallow p i xs [] = delSeq p i xs := by
+  intro xs
+  induction xs with
+  | nil => intro i; simp [posShallow, delSeq]
+  | cons x xs ih => intro i; simp [posShallow, delSeq, ih]
+
+theorem shallow_ok (p : Addr) (a b : Option Str) : ∀ (xs ys pre pre' : List Node), pre.length = pre'.length →
+    ∀ e ∈ posShallow p pre.length xs ys, EntryOk p (.seq a (pre ++ xs)) (.seq b (pre' ++ ys)) e := by
+  intro xs
+  induction xs with
+  | nil =>
+    intro ys pre pre' hlen e h
+    rw [posShallow_nil_left, hlen] at h
+    exact addSeq_ok p b _ ys pre' e h
+  | cons x xs ih =>
+    intro ys pre pre' hlen e h
+    cases ys with
+    | nil =>
+      rw [posShallow_nil_right] at h
+      exact delSeq_ok p a _ (x :: xs) pre e h
+    | cons y ys =>
+      simp only [posShallow, List.mem_cons] at h
+      cases h with
+      | inl h =>
+        rw [h]
+        exact EntryOk.lift (lc := x) (rc := y) (by simp [Node.child?]) (by rw [hlen]; simp [Node.child?]) EntryOk.scalar_self
+      | inr h =>
+        have := ih ys (pre ++ [x]) (pre' ++ [y]) (by simp [hlen]) e (by simpa using h)
+        simpa using this
+
+theorem diffPos_nil_right (s : Bool) (c : Cfg) (p : Addr) : ∀ (xs : List Node) (i : Nat),
+    diffPos s c p i xs [] = delSeq p i xs := by
+  intro xs
+  induction xs with
+  | nil => intro i; simp [diffPos, delSeq, addSeq]
+  | cons x xs ih => intro i; simp [diffPos, delSeq, ih]
+
+theorem listMode_positional {c : Cfg} (hc : Positional c) (xs ys : List Node) :
+    listMode c xs ys = .nothing ∨ listMode c xs ys = .posShallow ∨ listMode c xs ys = .posDeep := by
+  obtain ⟨arr, aoh⟩ := c
+  obtain ⟨h1, h2⟩ := hc
+  simp only at h1 h2
+  subst h1
+  unfold listMode
+  cases ys with
+  | nil =>
+    cases xs with
+    | nil => simp
+    | cons x xs => cases h2 <;> cases hx : isMap x <;> simp_all
+  | cons y ys => cases h2 <;> cases hy : isMap y <;> simp_all
+
+/-- the induction hypothesis handed to the list lemmas -/
+def TruthfulAt (s : Bool) (c : Cfg) (x : Node) : Prop :=
+  ∀ r q, wf x = true → wf r = true → ∀ e ∈ diffBetween s c q x r, EntryOk q x r e
+
+theorem pos_ok (s : Bool) (c : Cfg) (p : Addr) (a b : Option Str) : ∀ (xs ys pre pre' : List Node),
+    pre.length = pre'.length → (∀ x ∈ xs, TruthfulAt s c x) → (∀ x ∈ xs, wf x = true) → (∀ y ∈ ys, wf y = true) →
+    ∀ e ∈ diffPos s c p pre.length xs ys, EntryOk p (.seq a (pre ++ xs)) (.seq b (pre' ++ ys)) e := by
+  intro xs
+  induction xs with
+  | nil =>
+    intro ys pre pre' hlen _ _ _ e h
+    simp only [diffPos] at h
+    rw [hlen] at h
+    exact addSeq_ok p b _ ys pre' e h
+  | cons x xs ih =>
+    intro ys pre pre' hlen hih hwx hwy e h
+    cases ys with
+    | nil =>
+      rw [diffPos_nil_right] at h
+      exact delSeq_ok p a _ (x :: xs) pre e h
+    | cons y ys =>
+      simp only [diffPos, List.mem_append] at h
+      cases h with
+      | inl h =>
+        exact EntryOk.lift (lc := x) (rc := y) (by simp [Node.child?]) (by rw [hlen]; simp [Node.child?])
+          (hih x (List.mem_cons_self ..) y _ (hwx x (List.mem_cons_self ..)) (hwy y (List.mem_cons_self ..)) e h)
+      | inr h =>
+        have := ih ys (pre ++ [x]) (pre' ++ [y]) (by simp [hlen]) (fun z hz => hih z (List.mem_cons_of_mem _ hz))
+          (fun z hz => hwx z (List.mem_cons_of_mem _ hz)) (fun z hz => hwy z (List.mem_cons_of_mem _ hz)) e (by simpa using h)
+        simpa using this
+
+theorem dict_ok (s : Bool) (c : Cfg) (p : Addr) (a b : Option Str) (es0 fs : List (Key × Node))
+    (hwf : ∀ kv ∈ fs, wf kv.2 = true) : ∀ (es : List (Key × Node)),
+    (∀ kv ∈ es, es0.lookup kv.1 = some kv.2) → (∀ kv ∈ es, TruthfulAt s c kv.2) → (∀ kv ∈ es, wf kv.2 = true) →
+    ∀ e ∈ diffDict s c p es fs, EntryOk p (.map a es0) (.map b fs) e := by
+  intro es
+  induction es with
+  | nil => intro _ _ _ e h; simp [diffDict] at h
+  | cons kv es ih =>
+    obtain ⟨k, v⟩ := kv
+    intro hlk hih hw e h
+    have hl := hlk (k, v) (List.mem_cons_self ..)
+    simp only at hl
+    simp only [diffDict, List.mem_append] at h
+    cases h with
+    | inl h =>
+      cases hf : fs.lookup k with
+      | some w =>
+        rw [hf] at h
+        exact EntryOk.lift (lc := v) (rc := w) (by simpa [Node.child?] using hl) (by simpa [Node.child?] using hf)
+          (hih (k, v) (List.mem_cons_self ..) w _ (hw (k, v) (List.mem_cons_self ..)) (hwf (k, w) (mem_of_lookup hf)) e h)
+      | none =>
+        rw [hf] at h
+        simp only [List.mem_singleton] at h
+        rw [h]
+        exact EntryOk.del_child (by simpa [Node.child?] using hl)
+    | inr h =>
+      exact ih (fun kv hkv => hlk kv (List.mem_cons_of_mem _ hkv)) (fun kv hkv => hih kv (List.mem_cons_of_mem _ hkv))
+        (fun kv hkv => hw kv (List.mem_cons_of_mem _ hkv)) e h
+
+theorem skey_eqv_keyNode (k : Key) : eqv (keyNode k) (keyNode k) = true := by simp [keyNode, eqv]
+
+theorem truthful_node (s : Bool) (c : Cfg) (hc : Positional c) : ∀ (l : Node), TruthfulAt s c l := by
+  intro l
+  induction l using nodeInduct with
+  | hscalar a v =>
+    intro r q hl hr e he
+    cases r with
+    | scalar b w =>
+      simp only [diffBetween, List.mem_singleton] at he
+      rw [he]; exact EntryOk.scalar_self
+    | seq b ys => simp only [diffBetween] at he; exact clash_ok s q _ _ hl hr e he
+    | map b fs => simp only [diffBetween] at he; exact clash_ok s q _ _ hl hr e he
+    | set b ns => simp only [diffBetween] at he; exact clash_ok s q _ _ hl hr e he
+  | hset a ms =>
+    intro r q hl hr e he
+    cases r with
+    | set b ns =>
+      simp only [diffBetween, List.mem_append, List.mem_map, List.mem_filter] at he
+      cases he with
+      | inl h =>
+        obtain ⟨k, hk, rfl⟩ := h
+        cases hn : ns.contains k with
+        | true =>
+          rw [if_pos rfl]
+          have hkn : k ∈ ns := by simpa using hn
+          exact EntryOk.same [.member k] (keyNode k) (keyNode k) (by rw [get?_cons (child_member hk)]; rfl)
+            (by rw [get?_cons (child_member hkn)]; rfl) (skey_eqv_keyNode k)
+        | false =>
+          rw [if_neg (by decide)]
+          exact EntryOk.del_child (child_member hk)
+      | inr h =>
+        obtain ⟨k, ⟨hk, _⟩, rfl⟩ := h
+        exact EntryOk.add_child (child_member hk)
+    | scalar b w => simp only [diffBetween] at he; exact clash_ok s q _ _ hl hr e he
+    | seq b ys => simp only [diffBetween] at he; exact clash_ok s q _ _ hl hr e he
+    | map b fs => simp only [diffBetween] at he; exact clash_ok s q _ _ hl hr e he
+  | hmap a es ih =>
+    intro r q hl hr e he
+    cases r with
+    | map b fs =>
+      obtain ⟨hd, hv⟩ := wf_map hl
+      obtain ⟨hd', hv'⟩ := wf_map hr
+      simp only [diffBetween, List.mem_append, List.mem_map, List.mem_filter] at he
+      cases he with
+      | inl h => exact dict_ok s c q a b es fs hv' es (fun kv hkv => lookup_of_mem hd kv hkv) ih hv e h
+      | inr h =>
+        obtain ⟨kv, ⟨hkv, _⟩, rfl⟩ := h
+        exact EntryOk.add_child (by simpa [Node.child?] using lookup_of_mem hd' kv hkv)
+    | scalar b w => simp only [diffBetween] at he; exact clash_ok s q _ _ hl hr e he
+    | seq b ys => simp only [diffBetween] at he; exact clash_ok s q _ _ hl hr e he
+    | set b ns => simp only [diffBetween] at he; exact clash_ok s q _ _ hl hr e he
+  | hseq a xs ih =>
+    intro r q hl hr e he
+    cases r with
+    | seq b ys =>
+      simp only [diffBetween] at he
+      rcases listMode_positional hc xs ys with hm | hm | hm
+      · rw [hm] at he; simp at he
+      · rw [hm] at he
+        exact shallow_ok q a b xs ys [] [] rfl e he
+      · rw [hm] at he
+        exact pos_ok s c q a b xs ys [] [] rfl ih (wf_seq_mem hl) (wf_seq_mem hr) e he
+    | scalar b w => simp only [diffBetween] at he; exact clash_ok s q _ _ hl hr e he
+    | map b fs => simp only [diffBetween] at he; exact clash_ok s q _ _ hl hr e he
+    | set b ns => simp only [diffBetween] at he; exact clash_ok s q _ _ hl hr e he
+
+/-- **Under positional comparison every entry of a diff is true of the two documents.**
+For every entry `e` of the report (`s = false`: the code; also for the strict variant):
+a SAME/CHANGE/DELETE entry's left value is what the left document holds at `e.path`,
+a SAME/CHANGE/ADD entry's right value is what the right document holds there, SAME values are
+equal, CHANGE values differ, an ADD has no left and a DELETE no right value. -/
+theorem diff_truthful (s : Bool) (c : Cfg) (hc : Positional c) (l r : Node)
+    (hl : wf l = true) (hr : wf r = true) (e : Entry) (he : e ∈ diff s c l r) :
+    (e.action ≠ .add → e.lhs.isSome ∧ e.lhs = l.get? e.path)
+    ∧ (e.action ≠ .delete → e.rhs.isSome ∧ e.rhs = r.get? e.path)
+    ∧ (e.action = .add → e.lhs = none) ∧ (e.action = .delete → e.rhs = none)
+    ∧ (e.action = .same → ∃ a b, e.lhs = some a ∧ e.rhs = some b ∧ eqv a b = true)
+    ∧ (e.action = .change → ∃ a b, e.lhs = some a ∧ e.rhs = some b ∧ eqv a b = false) := by
+  have h := truthful_node s c hc l r [] hl hr e he
+  cases h with
+  | same q a b h1 h2 h3 => simp [h1, h2, h3]
+  | change q a b h1 h2 h3 => simp [h1, h2, h3]
+  | delete q a h1 => simp [h1]
+  | add q b h2 => simp [h2]
+
+example : Positional ⟨.position, .position⟩ := by decide
+
 end Ypv.C06
